@@ -72,10 +72,33 @@ FOCUS = [
     "two cooperating sites that each look correct alone (a helper changed in one file and a caller relying on its old contract in another)",
 ]
 
+FOCUS2 = [
+    "lifetimes over many calls on one object: counters that wrap, thresholds reached after thousands of appends or pool cycles, every n-th call behaving differently",
+    "sync.Pool semantics: what the New closure captures, allocator values copied before or after first use, pools shared between element types or shapes",
+    "a conversion, Read or Write whose source and destination share storage (two windows of one parent, equal or shifted by a few frames)",
+    "interleaved Read/Write with caller slices one sample shorter or longer than a whole number of frames; the returned frame count for a partly covered last frame",
+    "channel views taken before the parent is appended to, sliced, or recycled by a pool; views of windows that start at a later frame; BufferIndex for unusual arguments",
+    "index and size arithmetic that overflows or truncates: channels x frames products, intermediate int32/uint16/uint8 values, negative or huge Slice arguments",
+    "Append when the destination must grow and source or destination end in partial frames; the capacity and the old storage afterwards; Append of a buffer's own window",
+    "float32 as source or destination of fixed-point conversions: 24 bits of precision against 32-bit depths, rounding at 2^24, the round-trip clauses for float32",
+    "monotonicity clauses: order preservation of requantisation across the sign boundary, 'a larger input never gives a smaller code' around 0 and around +-1",
+    "narrowing requantisation of negative amplitudes: floor against truncation at -1, at -2^k and at the lowest code (the property allows either neighbouring integer, not more)",
+    "degenerate operands inside non-degenerate calls: one empty operand, zero-length windows in the middle of a buffer, early returns that skip a guard or a zero fill",
+    "PoolAllocator: Put of buffers that did not come from this pool but have the same total capacity, by-value copies of the allocator, Get after many Puts",
+    "concurrent calls that the properties allow: many goroutines allocating, converting from one shared source, using BitDepth/Frequency helpers, getting and putting on one pool",
+    "AppendSample and Append through a window that shares storage with its parent: what the parent and sibling windows see, where the window's capacity ends",
+    "one element type treated differently from the rest: uintptr, int and uint on this platform, the 8-bit types, named types over float32",
+    "striped forms over windows and long buffers: the extent of the zero fill (buffer length, not capacity), members longer than the buffer, the returned count",
+    "precision over long spans in Frequency: use of Duration.Seconds(), float32 intermediates, integer division of nanoseconds, rates above 1 MHz, spans near 24 h",
+    "defensive copies and laziness: a function that now copies, defers or batches work, so that a write through one view is not (yet) visible through another",
+    "zeroing: what Alloc and Put guarantee to be zero (whole capacity), -0 and NaN, storage handed out again by a cache inside Alloc, partial clears",
+    "the returned values: counts returned by Read/Write/striped forms/conversions, Length/Capacity/Len/Cap after each mutating call, for shapes where rounding up or down matters",
+]
 
 def main():
     ap = argparse.ArgumentParser()
     ap.add_argument("--free", action="store_true")
+    ap.add_argument("--hints", type=int, default=1, help="which list of focus hints the --free form uses (1 or 2)")
     ap.add_argument("--dir", default="/tmp/wt")
     a = ap.parse_args()
     os.makedirs(a.dir, exist_ok=True)
@@ -109,7 +132,7 @@ def main():
             with open(os.path.join(a.dir, pid + ".prompt.txt"), "w") as f:
                 f.write(HEAD.format(dir=a.dir, wt=pid) + TASK_ONE.format(dir=a.dir, wt=pid, extra=extra) + TAIL.format(dir=a.dir, wt=pid))
     if a.free:
-        for i, focus in enumerate(FOCUS):
+        for i, focus in enumerate(FOCUS if a.hints == 1 else FOCUS2):
             wt = "F%02d" % (i + 1)
             with open(os.path.join(a.dir, wt + ".prompt.txt"), "w") as f:
                 f.write(HEAD.format(dir=a.dir, wt=wt) + TASK_FREE.format(dir=a.dir, focus=focus) + TAIL.format(dir=a.dir, wt=wt))
